@@ -104,15 +104,16 @@ static void run_case_large(vr::Runner &R, const Cfg &cfg, const vg::EdgeList &el
             R.crumb(unit, sub, ki * 10 + var);
             vv::CycleList<W> cycles; W ret = W(); std::string exc;
             try { ret = vv::run_approx<W>(var, b, (std::size_t) k, cycles); } catch (std::exception &e) { exc = e.what(); } catch (...) { exc = "unknown exception"; }
-            R.crumb_done(); R.count(C_EVAL);
+            R.count(C_EVAL);
             std::string cs = cs_of(el, w, var, k); const char *site = vv::approx_name(var);
-            if (!exc.empty()) { R.violation({site, "exception", cs, exc}); continue; }
+            if (!exc.empty()) { R.crumb_done(); R.violation({site, "exception", cs, exc}); continue; }
             std::vector<std::vector<int>> ids;
             for (auto &c : cycles) { std::vector<int> v; for (auto &e : c) { auto it = b.by_prop.find(e.get_property()); v.push_back(it == b.by_prop.end() ? -1 : it->second);
 #ifdef VH_TOUCH_RESULTS
                     volatile double sink = boost::get(boost::edge_weight, b.g, e); (void) sink;
 #endif
                 } ids.push_back(v); }
+            R.crumb_done();     // results were read through the caller's map above, still inside the case
             auto chk = vbig::check_cycles(el, w, ids, dim);
             if (verbose) printf("variant=%s k=%ld returned=%s emitted_total=%s count=%zu %s\n", site, k, vg::fmt_w(ret).c_str(), vg::fmt_w(chk.total).c_str(), ids.size(), chk.ok ? "valid" : chk.msg.c_str());
             if (!chk.ok) { if (cfg.c05) R.violation({site, chk.cls, cs, chk.msg}); if (cfg.c06) R.violation({site, "no-basis-produced", cs, chk.msg}); continue; }
@@ -149,11 +150,11 @@ static void run_case(vr::Runner &R, const Cfg &cfg, const vg::EdgeList &el, cons
             try { ret = vv::run_approx<W>(var, b, (std::size_t) k, cycles); }
             catch (std::exception &e) { exc = std::string("exception: ") + e.what(); threw = true; }
             catch (...) { exc = "exception of a non-std type"; threw = true; }
-            R.crumb_done();
             R.count(C_EVAL);
             std::string cs = cs_of(el, w, var, k);
             const char *site = vv::approx_name(var);
             if (k == 0) {
+                R.crumb_done();
                 if (cfg.c06) {
                     // the property asks for "an exception"; its type is not part of the contract
                     if (!threw) R.violation({site, "k0-not-rejected", cs, "k=0 accepted (returned " + vg::fmt_w(ret) + ")"});
@@ -161,8 +162,9 @@ static void run_case(vr::Runner &R, const Cfg &cfg, const vg::EdgeList &el, cons
                 }
                 continue;
             }
-            if (!exc.empty()) { R.violation({site, "exception", cs, exc}); continue; }
-            auto chk = vb::check_cycle_set<W>(b, w, cycles, dim);
+            if (!exc.empty()) { R.crumb_done(); R.violation({site, "exception", cs, exc}); continue; }
+            auto chk = vb::check_cycle_set<W>(b, w, cycles, dim);     // (sanitizer builds dereference the returned descriptors here)
+            R.crumb_done();
             if (verbose) printf("variant=%s k=%ld returned=%s emitted_total=%s weights=%s count=%zu %s\n", site, k, vg::fmt_w(ret).c_str(),
                     vg::fmt_w(chk.total).c_str(), vb::vec_str(chk.weights).c_str(), chk.masks.size(), chk.ok ? "valid" : chk.msg.c_str());
             if (!chk.ok) { if (cfg.c05) R.violation({site, chk.cls, cs, chk.msg}); if (cfg.c06) { R.count(C_C06_SKIPPED_INVALID); R.violation({site, "no-basis-produced", cs, "output is not a cycle basis of the input (" + chk.msg + "), so no weight bound holds for it"}); } continue; }
